@@ -67,6 +67,8 @@ func (p pixSpec) bytes() []byte {
 		return append(make([]byte, 0, len(p.data)), p.data...)
 	case "fill":
 		return bytes.Repeat([]byte{p.fill}, p.n)
+	case "adlerstress":
+		return adlerStress(p.n)
 	}
 	out := make([]byte, p.n)
 	s := p.seed
@@ -87,8 +89,30 @@ func (p pixSpec) token() string {
 		return hlib.Hex(p.data)
 	case "fill":
 		return fmt.Sprintf("fill:%02x:%d", p.fill, p.n)
+	case "adlerstress":
+		return fmt.Sprintf("adlerstress:%d", p.n)
 	}
 	return fmt.Sprintf("seeded:%d:%d", p.seed, p.n)
+}
+
+// adlerStress is the worst case for the 5552-byte chunking of updateAdler32 when used as a
+// one-row gray8 image: after the first 5552 stream bytes (filter byte + 5551 pixels) the sum `a`
+// is 65520, the largest reduced value, and every following byte is 0xFF.
+func adlerStress(n int) []byte {
+	out := make([]byte, n)
+	for i := range out {
+		switch {
+		case i < 256:
+			out[i] = 0xFF
+		case i == 256:
+			out[i] = 239
+		case i < 5551:
+			out[i] = 0
+		default:
+			out[i] = 0xFF
+		}
+	}
+	return out
 }
 
 func item(b []byte) string {
@@ -346,7 +370,15 @@ func (q *seq) encode(c encCase) int {
 		q.stats(c, f, im, rw.writes)
 	}
 	// oracle 2: image/png
-	m, derr := png.Decode(bytes.NewReader(all))
+	// (DecodeConfig first: a wrong IHDR must not make the oracle allocate a huge image)
+	var m image.Image
+	cfg, derr := png.DecodeConfig(bytes.NewReader(all))
+	if derr == nil && (cfg.Width != c.w || cfg.Height != c.h) {
+		derr = fmt.Errorf("header says %dx%d, want %dx%d", cfg.Width, cfg.Height, c.w, c.h)
+	}
+	if derr == nil {
+		m, derr = png.Decode(bytes.NewReader(all))
+	}
 	if derr != nil {
 		q.fail("png.Decode-reject:"+fname, "image/png: "+derr.Error())
 	} else if m.Bounds() != image.Rect(0, 0, c.w, c.h) {
@@ -355,6 +387,16 @@ func (q *seq) encode(c encCase) int {
 		q.fail("png.Decode-type:"+fname, "image/png decoded "+bad)
 	} else if !bytes.Equal(got, want) {
 		q.fail("png.Decode-pixels:"+fname, "image/png pixels differ from the input")
+	}
+	// oracle 3 (optional): Wuffs' own std/png decoder, regenerated from the working tree
+	if wuffs != nil && (len(all) < 1<<20 || wuffsBig > 0) {
+		if len(all) >= 1<<20 {
+			wuffsBig--
+		}
+		if bad := wuffs.check(f, c.w, c.h, all, want); bad != "" {
+			q.fail("wuffs-std/png:"+fname, bad)
+		}
+		r.Count("wuffs-oracle:checked")
 	}
 	r.Extra("oracle_cases", q.bump())
 	r.Nontrivial(fmt.Sprintf("%s %dx%d s%d %s", fname, c.w, c.h, c.stride, c.pix.kind))
@@ -367,6 +409,9 @@ func (q *seq) encode(c encCase) int {
 	}
 	return len(rw.writes)
 }
+
+var wuffs *wuffsOracle
+var wuffsBig = 12 // how many outputs of 1 MiB or more go through the Wuffs decoder
 
 var oracleCases int
 var seenSlack = map[string]bool{}
@@ -592,6 +637,11 @@ func generate(r *hlib.Run) []encCase {
 				}
 			}
 		}
+	}
+	// B3. Adler-32 worst case at the 5552-byte chunk boundary (gray8, one row), in the first
+	//     block and spilling into later blocks.
+	for _, n := range []int{5551 + 5552, 20000, capF - 1, capF + 3*5552, capF + capL + 7000} {
+		add(encCase{w: n, h: 1, stride: n, depth: 8, ct: 1, pix: pixSpec{kind: "adlerstress", n: n}, failAt: -1, tag: "B3:adler-stress"})
 	}
 	// C. extremes 1xN / Nx1 and tiny.
 	for _, f := range fmts {
@@ -855,6 +905,11 @@ func main() {
 		specBudget = 80 << 20
 	}
 
+	if wuffsWanted(r) {
+		if wuffs = newWuffsOracle(r); wuffs != nil {
+			defer wuffs.cleanup()
+		}
+	}
 	cs := generate(r)
 	rng := r.Rand
 	i := 0
